@@ -18,6 +18,9 @@
 (*                       task returns Vec::new(), which is published       *)
 (*   RespawnAllDiags     FALSE = today: didChange recomputes diagnostics   *)
 (*                       of the changed document only                      *)
+(*   PublishOnlyLatest   FALSE = today: whatever a diagnostics task        *)
+(*                       returns is published when its waiter happens to   *)
+(*                       run, even if a newer task of the document exists  *)
 (*   HoldVfsAcrossApply  FALSE = today (drop(vfs) before apply_vfs_change) *)
 (*   SnapshotInTask      FALSE = today (snapshot taken on the main loop)   *)
 (*   MaxInFlight / PollWhileWaiting  ConcurrencyLayer admission; FALSE =   *)
@@ -39,7 +42,7 @@ CONSTANTS Docs,          \* document names (strings)
           MaxEdits, MaxReqs, MaxInFlight,
           ReqKinds,      \* subset of {"plain", "conv"}: conv = handler with a second snap.vfs()
           QueryOutcomes, \* subset of {"ok", "err"}
-          ReadWithLiveVfs, ConvertWithLiveVfs, CancelledDiagPublishesEmpty, RespawnAllDiags,
+          ReadWithLiveVfs, ConvertWithLiveVfs, CancelledDiagPublishesEmpty, RespawnAllDiags, PublishOnlyLatest,
           HoldVfsAcrossApply, SnapshotInTask, PollWhileWaiting, PreFixF9, ThirdPartyFatal,
           Gen,           \* "none" | "bfs" | "sim"   (script generation, seq mode)
           ScriptLen
@@ -345,16 +348,14 @@ M_Close ==
   /\ UNCHANGED <<cvars, chLeft, diagTodo, alive, vfsW, vfsText, vfsVer, pending, loaded, dvars, tasks, inflight, nextDiag, diagTask, retq, evq>>
 
 \* the async task awaiting the diagnostics task runs on the main loop's thread between two handlers and emits
-\* CollectDiagnosticsEvent::Internal; waiters are woken in the order in which their tasks completed - the model
-\* only relies on that order per document (hook: DiagEmit)
-FirstOfDoc(i) == \A j \in 1..(i - 1) : tasks[retq[j]].d # tasks[retq[i]].d
+\* CollectDiagnosticsEvent::Internal.  The runtime schedules the waiters of finished tasks in no particular order
+\* (observed on the real binary: the waiter of a newer task ran before that of an older one) (hook: DiagEmit)
 D_EmitT(t) ==
   /\ Idle
-  /\ \E i \in 1..Len(retq) : (retq[i] = t) /\ FirstOfDoc(i)
-                              /\ (retq' = SubSeq(retq, 1, i - 1) \o SubSeq(retq, i + 1, Len(retq)))
+  /\ \E i \in 1..Len(retq) : (retq[i] = t) /\ (retq' = SubSeq(retq, 1, i - 1) \o SubSeq(retq, i + 1, Len(retq)))
   /\ LET r == tasks[t]
          c == IF r.res = "cancelled" THEN "cancelled" ELSE "ok"
-     IN /\ evq' = IF c = "cancelled" /\ ~CancelledDiagPublishesEmpty THEN evq
+     IN /\ evq' = IF (c = "cancelled" /\ ~CancelledDiagPublishesEmpty) \/ (PublishOnlyLatest /\ diagTask[r.d] # t) THEN evq
                   ELSE Append(evq, [d |-> r.d, ver |-> r.snapVer, c |-> c])
         /\ tasks' = Del(tasks, t)
   /\ UNCHANGED <<cvars, mvars, svars, dvars, inflight, nextDiag, diagTask, published>>
